@@ -18,7 +18,8 @@ TEXT = {
     "C01": {
         "text": "Exploration: real secret stores of all three group types seal payloads of 0..64 KiB; a monitor opens every honest envelope on every receiver and every manipulated one "
                 "(every single-bit flip of small envelopes, seeded flips of large ones, field substitutions re-boxed under the group secret, cross-group presentation, insider forgeries by a "
-                "member that knows the chain key) on a copy of the receiver's state, and applies the oracle 'rejected, or same payload/sender/counter'. A thorough-tier unit repeats opens from 8 goroutines under the race detector.",
+                "member that knows the chain key) on a copy of the receiver's state, and applies the oracle 'rejected, or same payload/sender/counter'. A second unit appends manipulated envelopes to the message log of an activated receiver between honest deliveries "
+                "and checks at counter/goroutine-defined quiescence that exactly the honest messages came out as GroupMessageEvents. A thorough-tier unit repeats opens from 8 goroutines under the race detector.",
         "note": "Cryptographic strength is not proved: the claim is behaviour under the catalogued manipulations. The CID given to the store is the content hash of the envelope bytes.",
         "technique": "runtime monitoring: reject-or-equal oracle over exhaustive bit flips, field substitutions and insider forgeries on real secret stores (+ race detector run)",
     },
@@ -76,8 +77,9 @@ TEXT = {
     },
     "C06": {
         "text": "Exploration: the real RequestUsingReaderWriter/ResponseUsingReaderWriter run against a scripted adversary that owns its own account: honest run, wrong target, 24 low-order/non-canonical X25519 encodings on either side alone and combined with cross-session replay of harvested proofs, "
-                "observer replay, reflection, a man in the middle applying bit flips/truncation/oversize/duplication/drop to every frame, foreign identity key types, negative acknowledge. The oracle tracks which private keys the peer held in the session.",
-        "note": "Attacks outside the catalogue are outside the evidence; the manager layer (contact announced after the handshake) is covered by the service-level checks.",
+                "observer replay, reflection, a man in the middle applying bit flips/truncation/oversize/duplication/drop to every frame, foreign identity key types, negative acknowledge. The oracle tracks which private keys the peer held in the session. "
+                "A second unit drives contactRequestsManager.handleIncomingRequest on a byte pipe: after a real handshake as K the peer announces a contact (own key, other keys, malformed keys/seeds, oversize); the account log may only record K.",
+        "note": "Attacks outside the catalogue are outside the evidence; the outgoing side of the manager needs a libp2p stream to a dialled peer and is only exercised through the handshake functions.",
         "technique": "runtime monitoring: scripted adversary + authentication oracle ('reported key => private half held in this session')",
     },
     "C07": {
